@@ -53,6 +53,13 @@ fn main() {
         println!("{tm}");
         return;
     }
+    if cmd == "parse" {
+        // exploration helper: run the C05 predicate on a file
+        let src = std::fs::read_to_string(&args[2]).unwrap();
+        let pc = props::c05::check_parse(&src, &starlark::syntax::Dialect::AllOptionsInternal, false);
+        println!("ok={} problems={:?}", pc.ok, pc.problems);
+        return;
+    }
     if cmd == "c20-child" {
         std::process::exit(props::c20::child_main(&args[2], &args[3]));
     }
